@@ -41,8 +41,8 @@ func tk(tag *sym.E) *sym.E {
 	}
 	return sym.Fn("TK", tag)
 }
-func sv(x *sym.E) *sym.E   { return sym.Fn("SV", x) }
-func sz(x *sym.E) *sym.E   { return sym.Fn("SZ", x) }
+func sv(x *sym.E) *sym.E { return sym.Fn("SV", x) }
+func sz(x *sym.E) *sym.E { return sym.Fn("SZ", x) }
 func ext(kind string, x *sym.E) *sym.E {
 	if kind == "" {
 		return x
